@@ -3,6 +3,7 @@ package props
 import (
 	"bytes"
 	"fmt"
+	"go/ast"
 	"go/parser"
 	"go/token"
 	"hash/fnv"
@@ -36,7 +37,7 @@ func init() {
 			"(GORACE halt_on_error=0, log_path); the verifhook.Point handler yields or sleeps a seeded few microseconds outside the resolver's lock. Monitors: race-detector reports " +
 			"(counted from the log, de-duplicated by the pair of innermost dave/dst frames) - any report is a violation; each concurrent result (bytes, decorated tree by reflection " +
 			"deep-equality, error text) equals the result of the same call made alone beforehand; every call repeated in fresh decorators/restorers gives identical bytes (map iteration " +
-			"order varies between repetitions). distinct_nontrivial = distinct (round, goroutine, file, operation) results compared in rounds where at least two goroutines were inside the " +
+			"order varies between repetitions), and groups of three files decorated together as one *ast.Package give, in every repetition, the result of decorating each file alone. distinct_nontrivial = distinct (round, goroutine, file, operation) results compared in rounds where at least two goroutines were inside the " +
 			"shared resolver at the same time.",
 		Floor:  10,
 		Run:    runC16,
@@ -64,15 +65,15 @@ func goid() int64 {
 }
 
 type c16Ref struct {
-	name   string
-	src    []byte
-	plain  string // Parse+Fprint
-	imp    string // decorate with goast(map) + restore with imports
-	impErr string
+	name    string
+	src     []byte
+	plain   string // Parse+Fprint
+	imp     string // decorate with goast(map) + restore with imports
+	impErr  string
 	lazy    string // the same with goast.New() (lazy guess default)
 	lazyErr string
-	tree   *dst.File
-	dense  string
+	tree    *dst.File
+	dense   string
 }
 
 var c16Names = map[string]string{"math/rand/v2": "rand", "gopkg.in/yaml.v2": "yaml"}
@@ -406,6 +407,65 @@ func runC16(c *fw.Ctx) {
 			}
 			c.Count("repetitions", int64(n))
 			_ = i
+		})
+	}
+	// the same for several files decorated together as one *ast.Package (its Files map is iterated
+	// in random order): every repetition gives, for every file, the result of decorating it alone
+	var psrcs [][]byte
+	for _, ref := range refs {
+		psrcs = append(psrcs, ref.src)
+	}
+	psrcs = append(psrcs,
+		[]byte("package p\n\n// header, detached\n\nfunc a() {}\n\n// trailing comment of a.go\n"),
+		[]byte("// Package p doc.\npackage p\n\nfunc b() {\n\t// hanging\n}\n\n/* trailing block of b.go */\n"),
+		[]byte("package p\n\nvar c = 1 // c\n\n// last words of c.go\n"))
+	for g := 0; g+2 < len(psrcs); g += 3 {
+		id := fmt.Sprintf("repeat-package:%d", g/3)
+		group := psrcs[g : g+3]
+		c.Case(id, func() {
+			alone := map[string]string{}
+			for k, src := range group {
+				f, err := decorator.Parse(src)
+				if err != nil {
+					return
+				}
+				var b bytes.Buffer
+				if err := decorator.Fprint(&b, f); err != nil {
+					return
+				}
+				alone[fmt.Sprintf("f%d.go", k)] = b.String()
+			}
+			n := c.Pick(40, 150)
+			for rep := 0; rep < n; rep++ {
+				fset := token.NewFileSet()
+				pkg := &ast.Package{Name: "p", Files: map[string]*ast.File{}}
+				for k, src := range group {
+					name := fmt.Sprintf("f%d.go", k)
+					af, err := parser.ParseFile(fset, name, src, parser.ParseComments)
+					if err != nil {
+						return
+					}
+					pkg.Files[name] = af
+				}
+				dn, err := decorator.NewDecorator(fset).DecorateNode(pkg)
+				if err != nil {
+					c.Violate("package-decoration-error", "package-decoration-error", id+": "+err.Error(), "")
+					return
+				}
+				for name, df := range dn.(*dst.Package).Files {
+					var b bytes.Buffer
+					if err := decorator.Fprint(&b, df); err != nil {
+						c.Violate("nondeterministic", "nondeterministic:package-print-error", fmt.Sprintf("%s repetition %d: %s: %v", id, rep, name, err), alone[name])
+						return
+					}
+					if b.String() != alone[name] {
+						c.Violate("nondeterministic", "nondeterministic:package-decoration", fmt.Sprintf("%s repetition %d: %s decorated as part of the package differs from the file decorated alone:\n%s", id, rep, name, b.String()), alone[name])
+						return
+					}
+				}
+			}
+			c.Count("package_repetitions", int64(n))
+			c.Nontrivial(id)
 		})
 	}
 }
